@@ -17,8 +17,13 @@ pub fn sequence_value(input: Input<'_>) -> ParserResult<'_, ASN1Value> {
     map(
         in_braces(separated_list0(
             skip_ws_and_comments(char(',')),
+            // a component name in front of the value, or the value alone: the value is tried once
+            // in either case (a nested value is not parsed again for the second alternative)
             skip_ws_and_comments(alt((
-                pair(opt(value_reference), skip_ws_and_comments(asn1_value)),
+                pair(
+                    map(value_reference, Some),
+                    skip_ws_and_comments(asn1_value),
+                ),
                 map(skip_ws_and_comments(asn1_value), |v| (None, v)),
             ))),
         )),
